@@ -111,6 +111,22 @@ def run(F, R, tier):
                 R.ob("C10-b", "function expressions are transformed", any(callee_matches(n, [T + "transform_fn"]) for n in walk(arm["body"])), "Expr::Fn left untransformed", where(arm["body"]))
             if "Arrow" in vs:
                 R.ob("C10-b", "arrow functions are transformed", any(callee_matches(n, [T + "transform_arrow"]) for n in walk(arm["body"])), "Expr::Arrow left untransformed", where(arm["body"]))
+        # computed keys / members are expressions too: they must be checked
+        n_comp = 0
+        for n2 in walk(mm[0]):
+            if n2.get("k") != "Match":
+                continue
+            for arm in n2["arms"]:
+                v2, _ = pat_variants(arm["pat"])
+                if not any(x.endswith("PropName::Computed") or x.endswith("MemberProp::Computed") for x in v2):
+                    continue
+                n_comp += 1
+                binds = {b["lid"] for b in pat_bindings(arm["pat"])}
+                rec = [x for x in walk(arm["body"]) if x.get("k") in ("Call", "MethodCall") and ((x.get("k") == "Call" and "f" in x and expr_text(x["f"]) == "recurse") or callee_matches(x, [T + "maybe_transform_expr_if_leavable"]))]
+                ok = any(any(y.get("k") == "Field" and y["field"] == "expr" and peel_value(y["e"]).get("lid") in binds for y in walk(r)) for r in rec)
+                R.ob("C10-b", "a computed key / member expression is itself checked for leavability", ok,
+                     "the `%s` arm does not pass the computed expression to the leavability check: `{ [compute()]: 1 }` would be emitted with the call intact" % pat_text(arm["pat"])[:60], where(arm["body"]))
+        R.floor("C10-b computed key / member arms", n_comp, 2)
         R.ob("C10-b", "every executable expression kind has an explicit arm (no catch-all)", NEVER_LEAVABLE <= seen and not ca, "missing %s / catch-all=%s" % (sorted(NEVER_LEAVABLE - seen), ca), where(mm[0]))
         R.analysed["expr_variants_in_leavable_match"] = len(seen)
 
